@@ -2040,10 +2040,10 @@ class Cond(Output):
             xmfo = verif.metric.XConditional(verif.field.Fcst(), verif.field.Obs())  # O | F
             mof0 = verif.metric.Conditional(verif.field.Obs(), verif.field.Fcst(), np.mean)  # F | O
             for i in range(len(intervals)):
-                fo[i] = mfo.compute(data, f, verif.axis.No(), intervals[i])
-                of[i] = mof.compute(data, f, verif.axis.No(), intervals[i])
-                xfo[i] = xmfo.compute(data, f, verif.axis.No(), intervals[i])
-                xof[i] = xmof.compute(data, f, verif.axis.No(), intervals[i])
+                fo[i] = mfo.compute(data, f, verif.axis.No(), intervals[i])[0]
+                of[i] = mof.compute(data, f, verif.axis.No(), intervals[i])[0]
+                xfo[i] = xmfo.compute(data, f, verif.axis.No(), intervals[i])[0]
+                xof[i] = xmof.compute(data, f, verif.axis.No(), intervals[i])[0]
             mpl.plot(xof, of, label=labels[f] + " (F|O)", **opts)
             mpl.plot(fo, xfo, label=labels[f] + " (O|F)", alpha=0.5, **opts)
         mpl.ylabel("Forecasts (" + data.variable.units + ")")
@@ -3549,7 +3549,7 @@ class BsDecomp(Output):
             mpl.plot(x, y, label=labels[f], **opts)
 
             # This will be the same value for all files
-            unc = bsunc.compute(data, f, verif.axis.No(), interval)
+            unc = bsunc.compute(data, f, verif.axis.No(), interval)[0]
 
         mpl.xlabel("Reliability component")
         mpl.ylabel("Resolution component")
